@@ -163,6 +163,40 @@ def probe_errors(fn):
     return _probe_cache[key]
 
 
+def probe_get_output(fn, holder):
+    """`fn(self, wrapper)` is the text the execution the wrapped operand stands for wrote, without its final
+    newline - its OWN execution for the result of a call (whatever was executed before or after it, inside open
+    CommandBlocks, after closed ones), everything since the last clear_output for the Sandbox. Observed on the tree
+    under test at every point of a fixed history with nested blocks and executions that print different texts."""
+    key = ("get_output", id(fn))
+    if key not in _probe_cache:
+        import assertions_common as ac
+        import assertions_gen as ag
+        from pedal.assertions.feedbacks import SandboxedValue
+        steps = [["say", "one"], ["open"], ["say", "two"], ["quiet"], ["sayraw", "three"], ["open"], ["say", "four"],
+                 ["evalsay", "five"], ["close"], ["clear_output"], ["say", "six"], ["close"], ["say", "seven"]]
+        ok = True
+        try:
+            ac.setup()
+            me = object.__new__(holder)
+            for n in range(1, len(steps) + 1):
+                prefix = steps[:n]
+                out = ag.run_history(prefix)
+                for on in [i for i, st in enumerate(prefix) if st[0] in ag.EXEC_KINDS] + ["sandbox"]:
+                    operand = ac.get_sandbox() if on == "sandbox" else out["ops"][on]
+                    if fn(me, SandboxedValue(operand)) != ac.chomp(ag.hist_expect(prefix, on)[0]):
+                        ok = False
+        except Exception:
+            ok = False
+        finally:
+            try:
+                ag.end_history()
+            except Exception:
+                ok = False
+        _probe_cache[key] = ok
+    return _probe_cache[key]
+
+
 def probe_unwrap(fn):
     """`fn(x)` is x itself for a plain object and the underlying object for a real SandboxResult proxy."""
     key = ("unwrap", id(fn))
@@ -452,6 +486,8 @@ class CondTranslator:
             raise Untranslatable("self.%s descriptor" % attr)
         if isinstance(raw, types.FunctionType):
             if attr == "get_output":
+                if not probe_get_output(raw, holder):
+                    raise Untranslatable("self.get_output(X) is not the text X's own execution wrote")
                 return ("@get_output",)
             if in_pedal(raw):
                 return ("@func", raw, SELF)
